@@ -98,6 +98,14 @@ class ServiceRegistry:
         self.servers.setdefault(info.server_key, []).append(info.key)
         self.has_entries = True
 
+    @staticmethod
+    def _remove_from_index(index: Dict[str, List], key: _str, name: _str) -> None:
+        """Remove a name from an index and drop the bucket once it is empty."""
+        names = index[key]
+        names.remove(name)
+        if not names:
+            del index[key]
+
     def _remove(self, infos: List[ServiceInfo]) -> None:
         """Remove a services under the lock."""
         for info in infos:
@@ -105,8 +113,8 @@ class ServiceRegistry:
             if old_service_info is None:
                 continue
             assert old_service_info.server_key is not None
-            self.types[old_service_info.type.lower()].remove(info.key)
-            self.servers[old_service_info.server_key].remove(info.key)
+            self._remove_from_index(self.types, old_service_info.type.lower(), info.key)
+            self._remove_from_index(self.servers, old_service_info.server_key, info.key)
             del self._services[info.key]
 
         self.has_entries = bool(self._services)
